@@ -15,7 +15,7 @@ from ..ref import ident as ref
 
 ID = 'C10'
 LEVEL = 'exploration'
-ALPHA = ['\x00', '\x01', '\x1f', ' ', '-', '0', '9', 'a', '_', '\x7f', '\x80', '\x9f', '\xa0', '\U0001F600']
+ALPHA = ['\x00', '\x01', '\x1f', ' ', '-', '0', '9', 'a', '_', '\x7f', '\x80', '\x9f', '\xa0', '\U0001F600', '\ud83d', '\ude0d', '\ufffd']
 CSS_WS = set(' \t\n\r\f')
 
 
@@ -93,7 +93,9 @@ class Env:
         self.b = self.soup.find('b')      # carries the class as a plain STRING (as XML trees do)
 
     def set(self, s1):
-        vals = [s1, s1 + 'x', 'x' + s1, s1[:-1]]
+        # decoys: suffixed, prefixed, truncated; and (when the value holds U+FFFD) the same text with a raw NUL instead, which must NOT be selected
+        near = s1.replace('\ufffd', '\x00') if '\ufffd' in s1 else s1[:-1]
+        vals = [s1, s1 + 'x', 'x' + s1, near]
         for p, v in zip(self.ps, vals):
             p['id'] = v
             p['a'] = v
